@@ -332,3 +332,140 @@ from .C02 import k_errctx as _k_errctx  # noqa: E402
 )
 def k_linecol(text: str, index: int, kind: int) -> bool:
     return _k_errctx(text, index, 1, kind, False)
+
+
+# ---- inside-output / inside-tag state functions on SYMBOLIC text ----------------------------------
+from . import pymatch  # noqa: E402
+from liquid2.token import WhitespaceControl as _WC  # noqa: E402
+
+PyLexer = pymatch.install(Lexer)
+EXPR_ALPHA = "a1.'\"[]|:}-( "
+_VALIDATION = pymatch.validate(Lexer, EXPR_ALPHA + "%e+,=<>!~\n", 3)
+
+
+def _lex_inside(src: str, kind: int):
+    prefix = "{{" if kind == 0 else "{%if"
+    full = prefix + src
+    lx = PyLexer(ENV, full)
+    lx.markup_start = 0
+    lx.pos = lx.start = len(prefix)
+    lx.wc = [_WC.DEFAULT]
+    lx.tag_name = "if"
+    state = lx.lex_inside_output_statement if kind == 0 else lx.lex_inside_tag
+    try:
+        nxt = state()
+    except LiquidSyntaxError as e:
+        return ("liquid", e, full)
+    except Exception as e:  # noqa: BLE001
+        return ("escape", type(e).__name__, full)
+    return ("ok", (lx, nxt), full)
+
+
+@cond(
+    pre=["1 <= len(src) <= N", "in_alpha(src[1:], EXPR_ALPHA)"],
+    consts={"N": 3},
+    consts_thorough={"N": 4},
+    timeout=400,
+    timeout_thorough=3000,
+    shard={"c0": list(EXPR_ALPHA), "kind": [0, 1]},
+    covers="the real lex_inside_output_statement / lex_inside_tag (with accept_token, accept_path, accept_range, accept_template_string) on symbolic source text: they return with a markup token that spans exactly [markup_start, pos) whose expression tokens are ordered, non-overlapping and nested (also inside paths, ranges and strings), or raise LiquidSyntaxError with a renderable position inside the source - no other exception, for every text",
+    bounds="text after `{{` / `{%if` = c0 + up to 2 (thorough 3) characters over {a 1 . ' \" [ ] | : } - ( space}; the 7 simple patterns are replaced by pure-Python stand-ins validated exhaustively against the compiled patterns (all strings len <= 3 over the alphabet + 10 more characters, every position)",
+    stubs=("Lexer.RE_WHITESPACE/RE_LINE_SPACE/RE_OUTPUT_END/RE_TAG_END/RE_PROPERTY/RE_INDEX/TOKEN_RULES := pure-Python stand-ins (harness/pymatch.py), validated natively against the real patterns at import",),
+    grid=lambda: [(c, k, c + rest, 9) for c in EXPR_ALPHA for k in (0, 1) for rest in ("", "}}", " }", "a}}", ".a", "[1", "'a", "1.", "(1", "|a", "-}}", "..", "]}")],
+)
+def i_expr_symbolic(c0: str, kind: int, src: str, N: int) -> bool:
+    if _VALIDATION is not None:
+        return False
+    if src[:1] != c0:
+        return True
+    res = _lex_inside(src, kind)
+    full = res[2]
+    if res[0] == "escape":
+        return False
+    if res[0] == "liquid":
+        e = res[1]
+        tok = e.token
+        if tok is None:
+            return True
+        if not _render_error(e):
+            return False
+        return tok.start < 0 or 0 <= tok.start < len(full)
+    lx, nxt = res[1]
+    if nxt != lx.lex_markup or not lx.markup:
+        return False
+    t = lx.markup[-1]
+    if not (t.start == 0 and t.stop == lx.pos == lx.start and t.stop <= len(full)):
+        return False
+    at = t.start
+    for e in t.expression:
+        if not (at <= e.start <= e.stop <= t.stop and _nested_ok(e, t.start, t.stop)):
+            return False
+        at = e.stop
+    return True
+
+
+# ---- whole-source tiling on symbolic text ------------------------------------------------------------
+from .C02 import PREFIXES, PY_ENV, SRC_ALPHA, SRC_ALPHA_T, _STANDIN_VALIDATION  # noqa: E402
+
+
+def _spans_ok_env(env, src: str) -> bool:
+    try:
+        toks = env.tokenize(src)
+    except LiquidSyntaxError as e:
+        tok = e.token
+        return tok is None or tok.start < 0 or 0 <= tok.start < max(len(src), 1)
+    if not src:
+        return toks == []
+    if not _tiles(toks, len(src)):
+        return False
+    for t in toks:
+        if src[t.start : t.stop] == "" or (hasattr(t, "text") and type(t).__name__ == "ContentToken" and t.text != src[t.start : t.stop]):
+            return False
+        at = t.start
+        for e in getattr(t, "expression", None) or []:
+            if not (at <= e.start <= e.stop <= t.stop and _nested_ok(e, t.start, t.stop)):
+                return False
+            at = e.stop
+        for st in getattr(t, "statements", None) or []:
+            if not (t.start <= st.start <= st.stop <= t.stop):
+                return False
+    return True
+
+
+@cond(
+    pre=["len(suffix) <= N", "in_alpha(suffix, ALPHA)"],
+    consts={"N": 2, "ALPHA": SRC_ALPHA},
+    consts_thorough={"N": 3, "ALPHA": SRC_ALPHA_T},
+    timeout=300,
+    timeout_thorough=2400,
+    shard={"p": list(range(len(PREFIXES)))},
+    covers="for every source text in the bound that tokenizes: the top-level tokens are contiguous, non-overlapping, start at 0 and end at the last character, content tokens carry exactly their text, expression and line-statement tokens nest in order inside their markup token; for every source that does not tokenize the error position lies inside the source",
+    bounds="23 state-reaching prefixes + suffix over 14 characters len <= 2 (thorough: 10 characters, len <= 3); lexer patterns replaced by validated pure-Python stand-ins",
+    stubs=("all 13 compiled lexer patterns := pure-Python stand-ins (harness/pymatch.py), validated against the real patterns at import",),
+    grid=lambda: [(p, s, 9, SRC_ALPHA) for p in range(len(PREFIXES)) for s in ("", "}}", "%}", " }}", "'", "|a}}", "a}", "#}", "\n%}", "1}}", "[a", "..", "{{", "{%", "%}a")],
+)
+def d_tiling_symbolic(p: int, suffix: str, N: int, ALPHA: str) -> bool:
+    if _STANDIN_VALIDATION is not None:
+        return False
+    return _spans_ok_env(PY_ENV, PREFIXES[p] + suffix)
+
+
+def _tok_view(env, src: str):
+    try:
+        return ("ok", repr(env.tokenize(src)))
+    except LiquidSyntaxError as e:
+        return ("err", str(e.args[0]) if e.args else "", None if e.token is None else e.token.start)
+
+
+_REAL_ENV = type(PY_ENV).__mro__[1](loader=PY_ENV.loader)  # the same environment class with the real (regex) lexer
+
+
+@cond(
+    grid_only=True,
+    covers="translation validation of the stand-in lexer: on every source of the symbolic conditions' bound (23 prefixes x all suffixes of length <= 2) it produces exactly the tokens (or the error message and position) of the real regex-based lexer",
+    bounds="23 x 211 concrete sources, natively",
+    grid=lambda: [(p, a + b) for p in range(len(PREFIXES)) for a in [""] + list(SRC_ALPHA) for b in [""] + list(SRC_ALPHA) if not (a == "" and b != "")],
+)
+def g_pylexer_equiv(p: int, suffix: str) -> bool:
+    src = PREFIXES[p] + suffix
+    return _tok_view(PY_ENV, src) == _tok_view(_REAL_ENV, src)
